@@ -99,6 +99,22 @@ def _concat(repo, col):
             okc = bool(gci) and idx.same_expr(repo, fi, gci[0].stmt, gci[0].stmt.value, want)
         else:
             okc = bool(gci) and idx.same_expr(repo, fi, gci[0].stmt, gci[0].stmt.value, "np.arange(self.cumsum_ncomp[-1])")
+        if gci and not okc:
+            # 0 .. n-1 with n written as any of the spellings of "the number of rows of the node table"
+            gv = idx.shape_norm(gci[0].value)
+            while gv.op in ("mcall", "call") and gv.name in ("tolist", "to_list", "list", "asarray", "array") and gv.args:
+                gv = next((a_ for a_ in gv.args if a_.op != "free"), gv.args[0])
+            na = [a_ for a_ in gv.args if a_.op != "free"] if gv.op in ("mcall", "call") and gv.name in ("arange", "range") else []
+            if len(na) == 1:
+                n_ = na[0]
+                is_self_attr = lambda t_, nm_: t_.op == "attr" and t_.name == nm_ and t_.args and t_.args[0].op == "param" and t_.args[0].name == "self"
+                last_cum = n_.op == "sub" and is_self_attr(n_.args[0], "cumsum_ncomp") and \
+                    ((n_.args[1].op == "unary" and n_.args[1].name == "USub") or (n_.args[1].op == "const" and n_.args[1].name == -1))
+                nodes_vals = {s_.value.key() for s_ in _stores(ex, "nodes") if s_.value is not None}
+                n_rows = n_.op == "call" and n_.name == "len" and n_.args and (is_self_attr(n_.args[0], "nodes") or is_self_attr(n_.args[0], "_nodes_in_view") or
+                                                                           is_self_attr(n_.args[0], "_internal_node_inds") or n_.args[0].key() in nodes_vals)
+                total = n_.op in ("call", "mcall") and n_.name == "sum" and any(is_self_attr(a_, "ncomp_per_branch") for a_ in n_.args)
+                okc = bool(last_cum or n_rows or total or (cls == "Branch" and is_self_attr(n_, "ncomp")))
         col.check(okc, R, fi, f"{cls}: global_comp_index = 0..n-1", "dense numbering in constituent order",
                   f"global_comp_index is {unparse(gci[0].stmt.value) if gci else None}", node=gci[0].node if gci else fi.node)
         gbi = _stores(ex, "global_branch_index")
